@@ -447,3 +447,7 @@ package parse
 //@   params s
 //@   ensures implies(result1, result0 != nil)
 //@ func (HasArgument).ArgIdRef
+//@ func (Node).Def
+//@ func (Node).HasDef
+//@ func (Node).LookupType
+//@   params s
